@@ -18,6 +18,7 @@ pub trait Flavor: 'static {
     fn deadline(t: &'static GenericTimerService<Self::M>, ts: u64) -> Self::Fut;
     fn delay(t: &'static GenericTimerService<Self::M>, d: Duration) -> Self::Fut;
     fn node(f: &Self::Fut) -> NodeSnap;
+    fn node_debug(f: &Self::Fut) -> String;
 }
 
 pub struct Local;
@@ -35,6 +36,9 @@ impl Flavor for Local {
     fn node(f: &Self::Fut) -> NodeSnap {
         f.verif_node()
     }
+    fn node_debug(f: &Self::Fut) -> String {
+        f.verif_node_debug()
+    }
 }
 
 impl Flavor for Std {
@@ -48,6 +52,9 @@ impl Flavor for Std {
     }
     fn node(f: &Self::Fut) -> NodeSnap {
         f.verif_node()
+    }
+    fn node_debug(f: &Self::Fut) -> String {
+        f.verif_node_debug()
     }
 }
 
@@ -381,6 +388,9 @@ impl<F: Flavor> System for Sys<F> {
                         None => r.extend([200, 200]),
                     }
                     r.push(s.fut.get().is_terminated() as u8);
+                    // (the deadline inside the node is an absolute number: keep the rendering relative)
+                    let nd = F::node_debug(s.fut.get()).replace(&format!("expiry: {}", s.deadline), "expiry: D");
+                    r.extend(harness::norm(&nd));
                     recs.push(r);
                 }
             }
@@ -392,6 +402,7 @@ impl<F: Flavor> System for Sys<F> {
             v.extend(r);
             v.push(253);
         }
+        v.extend(harness::norm(&self.timer.verif_debug()));
         v
     }
 
